@@ -67,6 +67,6 @@ def run(ctx):
     rule = ctx.cov.get("rule", "")
     dist = ctx.cov.get("generator_distribution")
     c12.run_rpc_for(ctx, c12.RPC_C16)
-    ctx.cov["rule"] = rule + " | RPC lookups: the publicrpc part of the C12 harness, clauses rpc-get-lost / rpc-get-wrong-bytes"
+    ctx.cov["rule"] = rule + " | RPC lookups: the publicrpc part of the C12 harness, clauses rpc-get-lost / rpc-get-wrong-bytes and, entry by entry for GetNonGovernanceVAABatch (all sequences of every stream, stored ones and holes, in batches of 2..20), rpc-batch-wrong-bytes / rpc-batch-phantom / rpc-batch-lost"
     if dist is not None:
         ctx.cov["generator_distribution"] = dist
